@@ -50,8 +50,8 @@ type Prog struct {
 	Fns    []*ssa.Function
 	byName map[string]*ssa.Function
 	// closures[f] = anonymous functions created (transitively) inside f, in source order
-	callers map[*ssa.Function][]callSite // static call sites per module callee
-	nCalls  int
+	callers  map[*ssa.Function][]callSite // static call sites per module callee
+	nCalls   int
 	canonEnv env // parameter substitution in effect while canonE runs
 	factMemo map[*ssa.Function][]branchFact
 }
